@@ -156,6 +156,12 @@ def check_case(ctx, case):
             ctx.unexpected(o, "bin1d_vec")
             return
         got = [int(g) for g in numpy.atleast_1d(o.value)]
+        # the documented signature bin1d_vec(p, bins, tol=None, right_continuous=False) called positionally
+        op = call(calc.bin1d_vec, arg, bins, None, rc)
+        if not op.ok:
+            ctx.unexpected(op, "bin1d_vec_positional")
+        elif [int(g) for g in numpy.atleast_1d(op.value)] != got:
+            ctx.violation("bin1d_vec_positional_call_differs_from_keyword_call", {"right_continuous": rc})
     else:  # scalars, one call each
         got = []
         for v in vals:
